@@ -40,7 +40,8 @@
 
 static struct qb_log_target conf[QB_LOG_TARGET_MAX];
 static uint32_t conf_active_max = 0;
-static int32_t in_logger = QB_FALSE;
+/* re-entrancy guard of the calling thread (a logger/close/reload callback that logs) */
+static __thread int32_t in_logger = QB_FALSE;
 static int32_t logger_inited = QB_FALSE;
 static pthread_rwlock_t _listlock;
 static qb_log_filter_fn _custom_filter_fn = NULL;
